@@ -1069,6 +1069,155 @@ def probe(ctx):
     # P14: batches on the SU(2) side: one call on a batch == per-item calls; homomorphism on whole batches
     probe_su2_batches(ctx)
 
+    # P15: buffer reuse across calls (a result must not be changed by the next call with a different input of the same size)
+    probe_buffer_reuse(ctx)
+
+
+def probe_buffer_reuse(ctx):
+    """hardening class "buffer reuse across calls" (harness/bufreuse.py): for every returning function of C15, f(A) then f(B) with a
+    different input of the same shape must leave the first result untouched, unshared and still correct; deterministic inputs"""
+    import numqi
+    from harness import bufreuse as BR
+    G = numqi.group
+    MS = numqi.matrix_space
+    Y = np.array([[0, -1], [1, 0]], dtype=np.complex128)
+    # angle triples: generic, gimbal-lock (beta = 0, pi), generic again; two different sets of the same shape
+    angA = (np.array([0.3, 1.1, 5.0]), np.array([0.7, 0.0, 2.2]), np.array([1.9, 0.4, 0.0]))
+    angB = (np.array([2.3, 0.2, 4.1]), np.array([PI, 1.3, 0.5]), np.array([0.6, 3.3, 2.7]))
+    scA, scB = (0.3, 0.7, 1.9), (2.3, 1.3, 0.6)
+    each = lambda t: list(zip(*[np.atleast_1d(np.asarray(x, dtype=np.float64)).reshape(-1) for x in t]))
+    su2 = lambda t: np.stack([ref_su2(a, b, g) for a, b, g in each(t)])
+    so3 = lambda t: np.stack([ref_so3(a, b, g) for a, b, g in each(t)])
+    UA, UB = su2(angA), np.concatenate([su2(angB)[:2], (ref_su2(0.4, 0, 0) @ Y @ ref_su2(0, 0, 1.0))[None]])
+    RA, RB = so3(angA), np.concatenate([so3(angB)[1:], exact_rz(1.3)[None]])
+    lab_ang = lambda a: 'angles ' + ', '.join(np.array2string(np.asarray(x), precision=3) for x in a)
+    js_arr = lambda a: [np.asarray(x).tolist() if not np.iscomplexobj(x) else [[float(z.real), float(z.imag)] for z in np.asarray(x).reshape(-1)] for x in a]
+    lab_mat = lambda a: f'batch {np.asarray(a[-1]).shape}, first entry {np.asarray(a[-1]).reshape(-1)[0]:.4g}'
+
+    def chk_a2so3(r, a):
+        want = so3(a).reshape(np.shape(r))
+        return None if amax(np.asarray(r) - want) <= 1e-12 else f'angle_to_so3 != Rz Ry Rz ({amax(np.asarray(r) - want):.3g})'
+
+    def chk_a2su2(r, a):
+        want = su2(a).reshape(np.shape(r))
+        return None if amax(np.asarray(r) - want) <= 1e-12 else f'angle_to_su2 != reference ({amax(np.asarray(r) - want):.3g})'
+
+    def chk_su2so3(r, a):
+        want = np.stack([ref_su2to3(U) for U in a[0].reshape(-1, 2, 2)]).reshape(np.shape(r))
+        return None if amax(np.asarray(r) - want) <= 1e-12 else f'su2_to_so3(U) != tr(s_i U s_j U^+)/2 ({amax(np.asarray(r) - want):.3g})'
+
+    def chk_so3su2(r, a):
+        got = np.stack([ref_su2to3(U) for U in np.asarray(r).reshape(-1, 2, 2)]).reshape(a[0].shape)
+        return None if amax(got - a[0]) <= 1e-6 else f'so3_to_su2(R) is not a pre-image of R ({amax(got - a[0]):.3g})'
+
+    def chk_su2ang(r, a):
+        V = su2(r).reshape(a[0].shape)
+        d = max(min(amax(x - y), amax(x + y)) for x, y in zip(V.reshape(-1, 2, 2), a[0].reshape(-1, 2, 2)))
+        return None if d <= 1e-6 else f'angle_to_su2(su2_to_angle(U)) != +-U ({d:.3g})'
+
+    def chk_so3ang(r, a):
+        return None if amax(so3(r).reshape(a[0].shape) - a[0]) <= 1e-6 else 'angle_to_so3(so3_to_angle(R)) != R'
+
+    def chk_irrep(j2, matd=False):
+        def chk(r, a):
+            D = np.asarray(r[0] if matd else r)
+            Us = a[-1].reshape(-1, 2, 2) if len(a) == 1 else su2(a)
+            D = D.reshape(-1, j2 + 1, j2 + 1)
+            for U, Dj in zip(Us, D):
+                if amax(Dj @ Dj.conj().T - np.eye(j2 + 1)) > 1e-10:
+                    return f'get_su2_irrep(j2={j2}) not unitary'
+                # character: tr D^j(U) = sum_m e^{-i m theta}, cos(theta/2) = Re tr U / 2
+                th = 2 * math.acos(min(1.0, max(-1.0, float(np.trace(U).real) / 2)))
+                ch = sum(math.cos((j2 / 2 - k) * th) for k in range(j2 + 1))
+                if abs(np.trace(Dj) - ch) > 1e-6:
+                    return f'get_su2_irrep(j2={j2}): character {np.trace(Dj)} != {ch}'
+                if j2 == 1 and amax(Dj - U) > 1e-6:
+                    return 'get_su2_irrep(1, U) != U'
+            return None
+        return chk
+
+    def chk_cg(r, a):
+        j1d, j2d = a
+        want = list(range(abs(j1d - j2d), j1d + j2d + 1, 2))
+        if [int(jd) for jd, _ in r] != want and [int(jd) for jd, _ in r] != want[::-1]:
+            return f'CG blocks {[int(jd) for jd, _ in r]} for ({j1d},{j2d})'
+        M = np.concatenate([np.asarray(c).reshape(jd + 1, -1) for jd, c in r], axis=0)
+        if M.shape != ((j1d + 1) * (j2d + 1),) * 2 or amax(M @ M.T - np.eye(M.shape[0])) > 1e-10:
+            return f'CG table of ({j1d},{j2d}) is not an orthogonal matrix'
+        ops1, ops2 = MS.get_angular_momentum_op(j1d), MS.get_angular_momentum_op(j2d)
+        for jd, c in r:
+            C = np.asarray(c).reshape(jd + 1, -1)
+            for A1, A2, AJ in zip(ops1, ops2, MS.get_angular_momentum_op(jd)):
+                if amax(C @ (np.kron(A1, np.eye(j2d + 1)) + np.kron(np.eye(j1d + 1), A2)) - AJ @ C) > 1e-10:
+                    return f'CG block j_double={jd} of ({j1d},{j2d}) does not intertwine'
+        return None
+
+    def chk_ito(r, a):
+        S_ = a[0]
+        allT = np.concatenate(r, axis=0)
+        gram = np.einsum('aij,bij->ab', allT.conj(), allT)
+        return None if allT.shape == ((S_ + 1) ** 2, S_ + 1, S_ + 1) and amax(gram - (S_ + 1) * np.eye(len(gram))) <= 1e-10 else f'tensor operators of S_double={S_} not trace-orthogonal with norm S_double+1'
+
+    def chk_herm(r, a):
+        S_, norm, stack = a
+        B = np.asarray(r) if stack else np.concatenate(r, axis=0)
+        nrm = 1.0 if norm else (S_ / 2) * (S_ / 2 + 1) * (S_ + 1) / 3
+        g2 = np.einsum('aij,bji->ab', B, B)
+        return None if B.shape == ((S_ + 1) ** 2, S_ + 1, S_ + 1) and amax(B - B.conj().transpose(0, 2, 1)) <= 1e-12 and amax(g2 - nrm * np.eye(len(B))) <= 1e-10 \
+            else f'Hermitian basis (S_double={S_}, tag_norm={norm}) not Hermitian / trace-orthogonal with norm {nrm}'
+
+    def chk_jops(r, a):
+        jx, jy, jz = [np.asarray(x) for x in r]
+        return None if amax(jx @ jy - jy @ jx - 1j * jz) <= 1e-12 and jz.shape == (a[0] + 1, a[0] + 1) else f'[Jx,Jy] != iJz for j_double={a[0]}'
+
+    def chk_rot2(r, a):
+        M = np.asarray(r)
+        return None if amax(M @ M.T - np.eye(2)) <= 1e-14 and abs(np.linalg.det(M) - 1) <= 1e-14 else f'get_rational_orthogonal2_matrix{a} not in SO(2)'
+
+    cases = [
+        ('angle_to_so3', G.angle_to_so3, angA, angB, chk_a2so3, lab_ang), ('angle_to_so3', G.angle_to_so3, scA, scB, chk_a2so3, lab_ang),
+        ('angle_to_su2', G.angle_to_su2, angA, angB, chk_a2su2, lab_ang), ('angle_to_su2', G.angle_to_su2, scA, scB, chk_a2su2, lab_ang),
+        ('su2_to_so3', G.su2_to_so3, (UA,), (UB,), chk_su2so3, lab_mat), ('su2_to_so3', G.su2_to_so3, (UA[0],), (UB[2],), chk_su2so3, lab_mat),
+        ('so3_to_su2', G.so3_to_su2, (RA,), (RB,), chk_so3su2, lab_mat), ('so3_to_su2', G.so3_to_su2, (RA[1],), (RB[0],), chk_so3su2, lab_mat),
+        ('su2_to_angle', G.su2_to_angle, (UA,), (UB,), chk_su2ang, lab_mat), ('su2_to_angle', G.su2_to_angle, (UA[1],), (UB[1],), chk_su2ang, lab_mat),
+        ('so3_to_angle', G.so3_to_angle, (RA,), (RB,), chk_so3ang, lab_mat), ('so3_to_angle', G.so3_to_angle, (RA[0],), (RB[2],), chk_so3ang, lab_mat),
+    ]
+    for j2 in (1, 2, 5):
+        cases.append((f'get_su2_irrep[j2={j2},matrix]', (lambda U, j2=j2: G.get_su2_irrep(j2, U)), (UA,), (UB,), chk_irrep(j2), lab_mat))
+        cases.append((f'get_su2_irrep[j2={j2},angles]', (lambda a, b, g, j2=j2: G.get_su2_irrep(j2, a, b, g)), angA, angB, chk_irrep(j2), lab_ang))
+        cases.append((f'get_su2_irrep[j2={j2},return_matd]', (lambda U, j2=j2: G.get_su2_irrep(j2, U, return_matd=True)), (UA[0],), (UB[0],), chk_irrep(j2, matd=True), lab_mat))
+    # Clebsch-Gordan tables of different (j1, j2) with the same total size (j1+1)(j2+1)
+    for a, b in [((1, 2), (2, 1)), ((3, 3), (1, 7)), ((2, 4), (4, 2)), ((1, 1), (0, 3)), ((2, 3), (3, 2)), ((5, 1), (2, 3))]:
+        cases.append(('get_clebsch_gordan_coeffient', MS.get_clebsch_gordan_coeffient, a, b, chk_cg, repr))
+    for a, b in [((2,), (3,)), ((3,), (2,)), ((4,), (1,))]:
+        cases.append(('get_irreducible_tensor_operator', MS.get_irreducible_tensor_operator, a, b, chk_ito, repr))
+        cases.append(('get_angular_momentum_op', MS.get_angular_momentum_op, a, b, chk_jops, repr))
+    for a, b in [((2, False, True), (2, True, True)), ((3, True, True), (3, False, True)), ((2, False, False), (2, True, False)), ((3, False, True), (3, False, False))]:
+        cases.append(('get_irreducible_hermitian_matrix_basis', MS.get_irreducible_hermitian_matrix_basis, a, b, chk_herm, repr))
+    for a, b in [((1, 2), (2, 3)), ((3, -4), (-5, 12))]:
+        cases.append(('get_rational_orthogonal2_matrix', G.get_rational_orthogonal2_matrix, a, b, chk_rot2, repr))
+    for name, f, A, B, chk, lab in cases:
+        BR.run_pair(ctx, name.split('[')[0], f, A, B, check=chk, label=lab, jsonable=(js_arr if lab is not repr else (lambda a: list(a))))
+        if name.split('[')[0] != 'get_clebsch_gordan_coeffient':      # and the other way round (B first)
+            BR.run_pair(ctx, name.split('[')[0], f, B, A, check=chk, label=lab, jsonable=(js_arr if lab is not repr else (lambda a: list(a))))
+
+
+def replay(ctx, payload):
+    """--replay: a `<fn>:result-overwritten-by-next-call` record re-runs the (deterministic) buffer-reuse block only; anything else
+    re-runs the whole probe; reports whether the recorded key fails again"""
+    key = payload.get('key', '')
+    if key.endswith(':result-overwritten-by-next-call'):
+        probe_buffer_reuse(ctx)
+    else:
+        probe(ctx)
+    hit = [f for f in ctx.failures if f['key'] == key]
+    if hit:
+        print(f"replay: {key} still fails: {hit[0]['what']}")
+        print(f'VIOLATION property={ctx.pid} replay={ctx.replay_path}')
+        return 1
+    print(f'replay: {key} no longer fails ({ctx.probe_evals} probe evaluations)')
+    return 0
+
 
 def probe_su2_batches(ctx, wide=False):
     """implementation-side oracle for batches on the SU(2) side (no model involved): one call on a batch == the per-item calls, for
